@@ -113,8 +113,15 @@ Must be a literal string.",
         let os_string: OsString = desc_file_str.into_owned().into();
         let path_buf = PathBuf::from(os_string);
         let path = Path::new(&path_buf);
-        let descriptor =
-            get_message_descriptor(path, &message_type_str).expect("message type not found");
+        // A missing or unreadable descriptor file, or a message type it does not define, is a
+        // compile-time diagnostic, not a reason to panic the host.
+        let descriptor = get_message_descriptor(path, &message_type_str).map_err(|_| {
+            function::Error::InvalidArgument {
+                keyword: "desc_file",
+                value: format!("{}", path.display()).into(),
+                error: "Unable to load the message type from the descriptor file",
+            }
+        })?;
 
         Ok(ParseProtoFn { descriptor, value }.as_expr())
     }
